@@ -17,7 +17,9 @@ var (
 	nodeVals = map[string][]string{"zone": {"a", "b", "c"}, "rack": {"r1", "r2", "r3"}, "num": {"1", "5", "9"}}
 	podKeys  = []string{"app", "tier", "ver"}
 	podVals  = map[string][]string{"app": {"x", "y", "z"}, "tier": {"fe", "be", "db"}, "ver": {"1", "2", "3"}}
-	numVals  = []string{"0", "1", "4", "5", "9", "10", "-3", "+5", "05"}
+	// requirement values must be valid label values (labels.NewRequirement rejects "-3" or "+5":
+	// the term then has a parse error and never matches), so no signed numbers
+	numVals  = []string{"0", "1", "4", "5", "9", "10", "05", "007"}
 	taintKs  = []string{"t1", "t2"}
 	taintVs  = []string{"v1", "v2", ""}
 	effects  = []string{"NoSchedule", "NoExecute", "PreferNoSchedule"}
